@@ -257,11 +257,10 @@ def to_ops(rec):
         impl = 'err:' + rec['raised']
         ops.append(('extract', '\t'.join(['ux.extract', 'full'] + base), impl))
     else:
-        tail_full = None
-        if rec['pre'] is not None:
+        if rec['pre'] is not None and any(half):
+            # (every configuration but the Chinese one has `expand_half_suffix: pass`; then this stage is the whole call)
             ops.append(('extract-pre', '\t'.join(['ux.extract', 'pre'] + base), _ers(rec['pre']), flags, fixed))
         ops.append(('extract', '\t'.join(['ux.extract', 'full'] + base), _ers(rec['result']), flags, fixed))
-        del tail_full
     for e in rec['select']:
         line = '\t'.join(['ux.select', str(e['src_len']), _ers(e['ers']), _mask(e['flags'])])
         ops.append(('select', line, ('err:' + e['raised']) if e['raised'] else _ers(e['out'])))
@@ -320,7 +319,7 @@ def seeded_sentences(r, suffix_forms, prefix_forms, conn, cjk, n):
         return r.choice(prefix_forms) if prefix_forms else r.choice(suffix_forms) if suffix_forms else '$'
 
     def piece():
-        k = r.randint(0, 15)
+        k = r.randint(0, 16)
         num = r.choice(NUMERALS)
         if k == 0:
             return num + sep + sf()
@@ -354,6 +353,10 @@ def seeded_sentences(r, suffix_forms, prefix_forms, conn, cjk, n):
             return num + sep + sf() + ('半' if cjk else ' ' + sf())
         if k == 14:
             return num + '  ' + sf() + ' ' + sf()
+        if k == 16:
+            # digits glued to both sides of a unit: the shape the ambiguity filters remove (then `_select_candidates`
+            # indexes past the filtered list)
+            return num + sf() + r.choice(NUMERALS)
         return num + sep + sf().upper()
     for _ in range(n):
         parts = [piece() for _ in range(r.randint(1, 4))]
